@@ -563,10 +563,12 @@ class DestHandler:
         if len(self._pdus_to_be_sent) > 0:
             raise UnretrievedPdusToBeSent(f"{len(self._pdus_to_be_sent)} packets left to send")
         if self.states.step == TransactionStep.SENDING_EOF_ACK_PDU:
+            # No lost segments are re-requested for a transaction which was cancelled by an
+            # EOF (Cancel) PDU, it completes with the condition code of the EOF PDU.
             if (
                 self._params.acked_params.lost_seg_tracker.num_lost_segments > 0
                 or self._params.acked_params.metadata_missing
-            ):
+            ) and self._params.completion_disposition != CompletionDisposition.CANCELED:
                 self._start_deferred_lost_segment_handling()
             else:
                 if self._params.completion_disposition != CompletionDisposition.CANCELED:
